@@ -726,11 +726,21 @@ func runC19(c *Cfg) {
 		}
 		rcs = append(rcs, &RouteCase{Family: "route-twins", Kind: "panicking-exec", Val: v - 1, Route: "option-vs-builder"})
 	}
+	for _, via := range []string{"run", "flow"} {
+		rcs = append(rcs, &RouteCase{Family: "route-twins", Kind: "post-after-cancel-in-exec", Route: "option-vs-builder", Via: via})
+	}
+	for _, cc := range []int{2, 4} {
+		rcs = append(rcs, &RouteCase{Family: "route-twins", Kind: "exec-form-parallelism", Val: cc, Route: "option-vs-builder"})
+	}
 	for i, rc := range rcs {
 		if !c.Mine(i) {
 			continue
 		}
 		for _, f := range runRouteCase(rc) {
+			if strings.HasPrefix(f.key, "inconclusive:") {
+				r.Incon(f.detail)
+				continue
+			}
 			r.Violate("C19", "C19:"+f.key, f.detail, rc)
 		}
 		r.Eval()
